@@ -30,7 +30,7 @@ def expected(kind, ext, region, sz, n, parses=True):
 def scenarios(rnd, quick):
     out = []
     slot0, blk, ns = 17408 + 2048, 256, 4
-    def add(sz, n, mutate, kind=K_FW, ext=EXT["co"], tag="", slot=None):
+    def add(sz, n, mutate, kind=K_FW, ext=EXT["co"], tag="", slot=None, it=0xFFFFFFFF, bo=0xFFFFFFFF):
         slot = slot or slot0
         total = n * sz
         img = bytearray(ts004.make_image(rnd, n, sz))
@@ -41,7 +41,7 @@ def scenarios(rnd, quick):
         note = mutate(region, total) if mutate else ""
         s = session.Scn(ns, slot, blk)
         i = rnd.randrange(ns)
-        s.add("raw %x %s" % (i * slot, hdr(kind, rnd.randrange(1000), sz, n, ext).hex()))
+        s.add("raw %x %s" % (i * slot, hdr(kind, rnd.randrange(1000), sz, n, ext, it, bo).hex()))
         s.add("raw %x %s" % (i * slot + session.DRO, bytes(region).hex()))
         s.meta = {"i": i, "want": expected(kind, ext, bytes(region), sz, n), "sz": sz, "n": n, "tag": tag + note}
         s.meta["v"] = s.add("valid %d" % i); s.meta["ov"] = s.add("ovalid %d" % i)
@@ -84,6 +84,13 @@ def scenarios(rnd, quick):
         for e in EXT.values():
             add(40, 5, None, kind=kind, ext=e, tag="gate")
             add(40, 5, flip_bit, kind=kind, ext=e, tag="gate")
+            # every combination of the other two status words (each legal on its own, so the header parses): only the kind and the
+            # external write status gate the validation - e.g. a boot outcome marked before the copy mark
+            for it in (0xFFFFFFFF, 0x11111111):
+                for bo in (0xFFFFFFFF, 0xABCD1234, 0xCDEF7890):
+                    if (it, bo) != (0xFFFFFFFF, 0xFFFFFFFF):
+                        add(40, 5, None, kind=kind, ext=e, tag="gate-status", it=it, bo=bo)
+                        add(17, 9, flip_bit, kind=kind, ext=e, tag="gate-status", it=it, bo=bo)
     return out
 
 
@@ -130,6 +137,6 @@ def run(chk):
     chk.note_cases("session-crc-done", lines, lines, sample_n=1)
     return chk.finish(level="proof",
         rule="session-crc: slots prepared with a header and a data region: every fragment size (quick: 1..79 and boundary sizes; thorough: 1..256) x counts placing count*size below / at / just above the 68-byte prefix and a few hundred bytes; "
-             "single-bit corruption of covered bytes and of the stored CRC (random positions; every position for four small images), bits outside the covered range (signature area, beyond count*size) that must NOT matter; kind / status gate; "
+             "single-bit corruption of covered bytes and of the stored CRC (random positions; every position for four small images), bits outside the covered range (signature area, beyond count*size) that must NOT matter; kind / status gate (both kinds x the three external write codes x every combination of the internal-write and boot-outcome words); "
              "session-crc-done: complete deliveries of an image with one corrupted bit; non-trivial = every case; distinct by case text",
         trusted=core.TRUSTED_COMMON + ["C14: the `crc` crate is replaced by a bitwise model (Crc.v) and compared through is_valid_firmware; the oracle CRC in fvlib/ts004.py is written from the catalogue parameters"])
